@@ -62,6 +62,55 @@ def _value_injective(prog, rep, fi, il, kv, exts):
     rep.check(bad is None, "KEY", fi.short, "value part of a component", "the data value itself (or a tuple of it)", (f"the value that enters the group key goes through `{norm(bad[0])[:60]}` ({bad[1]}): two different values of the key -- e.g. the lists ['a', 'b'] and ['b', 'a'], or ['a'] and ['a', 'a'] -- get the same component, so events with different values are merged into one group" if bad else ""), fi.loc(bad[0]) if bad else fi.loc(il))
 
 
+def _group_names(fi, ol):
+    """(groups dict name, group key variable) of the event loop: the dict that is stored into by key inside the loop"""
+    for n in ast.walk(ol):
+        if isinstance(n, ast.Assign) and len(n.targets) == 1 and isinstance(n.targets[0], ast.Subscript) and isinstance(n.targets[0].value, ast.Name) and isinstance(n.targets[0].slice, ast.Name):
+            g = n.targets[0].value.id
+            if any(isinstance(d, ast.Assign) and norm(d.value) in ("{}", "dict()") for d in local_defs_all(fi, g)):
+                return g, n.targets[0].slice.id
+    return None, None
+
+
+def local_defs_all(fi, name):
+    from ..sqlmodel import local_defs
+
+    return local_defs(fi, name)
+
+
+def _key_comprehension(prog, rep, fi, ol):
+    """the group key written as tuple(<(key, value) for key in keys if key in e.data>) -> True when decided"""
+    g, ck = _group_names(fi, ol)
+    if ck is None:
+        return False
+    defs = [n for n in ol.body if isinstance(n, ast.Assign) and len(n.targets) == 1 and norm(n.targets[0]) == ck]
+    if len(defs) != 1:
+        return False
+    v = defs[0].value
+    if not (isinstance(v, ast.Call) and norm(v.func) == "tuple" and len(v.args) == 1 and isinstance(v.args[0], (ast.GeneratorExp, ast.ListComp)) and len(v.args[0].generators) == 1):
+        return False
+    comp = v.args[0]
+    gen = comp.generators[0]
+    if norm(gen.iter) != fi.params[1] or not isinstance(gen.target, ast.Name):
+        return False
+    kv = gen.target.id
+    elt = comp.elt
+    tagged = isinstance(elt, ast.Tuple) and len(elt.elts) >= 2 and any(isinstance(x, ast.Name) and x.id == kv for x in elt.elts)
+    # value part: the same rule as for the loop form (a synthetic extension statement over the element)
+    ext = ast.Assign(targets=[ast.Name(id=ck, ctx=ast.Store())], value=ast.BinOp(left=ast.Name(id=ck, ctx=ast.Load()), op=ast.Add(), right=ast.Tuple(elts=[elt], ctx=ast.Load())))
+    ast.copy_location(ext, defs[0])
+    ast.fix_missing_locations(ext)
+    holder = ast.For(target=gen.target, iter=gen.iter, body=[ext], orelse=[])
+    ast.copy_location(holder, defs[0])
+    ast.fix_missing_locations(holder)
+    _value_injective(prog, rep, fi, holder, kv, [ext])
+    if tagged:
+        rep.ok("KEY", fi.short, "key extension", f"tagged: each component of the comprehension carries `{kv}` next to the value", fi.loc(defs[0]))
+    else:
+        rep.check(not gen.ifs, "KEY", fi.short, "key extension", "positional: exactly one component per key", f"the group key keeps a component only for keys passing `{[norm(c) for c in gen.ifs]}` and the components are not tagged with their key: events {{a: 1}} and {{b: 1}} merged by [a, b] get the same group key, so different combinations of presence and value are conflated", fi.loc(defs[0]))
+    return True
+
+
 def key_injectivity(prog, rep):
     rep.rule("KEY", "merge_events_by_keys: the composite group key determines, for every key, whether it is present and its value: either every path through the `for key in keys` body extends the key by exactly one component (positional), or each component carries the key itself next to the value (tagged)")
     fi = prog.func("merge_events_by_keys")
@@ -72,7 +121,8 @@ def key_injectivity(prog, rep):
     ol = outer[0]
     inner = [n for n in ol.body if isinstance(n, ast.For) and norm(n.iter) == fi.params[1]]
     if len(inner) != 1:
-        rep.undecided("KEY", fi.short, "key loop", f"{len(inner)} loops over keys building the group key", fi.loc(ol))
+        if not _key_comprehension(prog, rep, fi, ol):
+            rep.undecided("KEY", fi.short, "key loop", f"{len(inner)} loops over keys building the group key", fi.loc(ol))
         return ol
     il = inner[0]
     kv = norm(il.target)
@@ -117,13 +167,95 @@ def key_injectivity(prog, rep):
     return ol
 
 
+def _sum_general(prog, rep, fi, ol):
+    """SUM for any shape of the event loop, on its CFG: the sites that count an event's duration are
+         A  <group>.duration += event.duration        (group = groups[key] or a local bound to groups.get(key) / groups[key])
+         B  Event(..., duration=event.duration, ...)  stored as groups[key]
+       every iteration passes through exactly one of them; A only where the group is known to exist, the store of B only
+       where it is known not to; nothing else writes a group's duration.  -> True when decided"""
+    from ..cfg import cfg_of, membership, truth
+    from ..sqlmodel import local_defs
+
+    groups, ck = _group_names(fi, ol)
+    if ck is None or not isinstance(ol.target, ast.Name):
+        return False
+    ev = ol.target.id
+    gvars = set()
+    for n in ast.walk(ol):
+        if isinstance(n, ast.Assign) and len(n.targets) == 1 and isinstance(n.targets[0], ast.Name) and norm(n.value) in (f"{groups}.get({ck})", f"{groups}[{ck}]", f"{groups}.get({ck}, None)"):
+            gvars.add(n.targets[0].id)
+    grp = {f"{groups}[{ck}]"} | gvars
+    A = [n for n in ast.walk(ol) if isinstance(n, ast.AugAssign) and isinstance(n.op, ast.Add) and isinstance(n.target, ast.Attribute) and n.target.attr == "duration" and norm(n.target.value) in grp and norm(n.value) == f"{ev}.duration"]
+    stores = [n for n in ast.walk(ol) if isinstance(n, ast.Assign) and len(n.targets) == 1 and norm(n.targets[0]) == f"{groups}[{ck}]"]
+    B = []
+    for st in stores:
+        v = st.value
+        if isinstance(v, ast.Name):
+            ds = [d for d in local_defs(fi, v.id) if isinstance(d, ast.Assign) and isinstance(d.value, ast.Call) and norm(d.value.func) == "Event"]
+            gvars_new = v.id
+            if len(ds) == 1:
+                v = ds[0].value
+                grp.add(gvars_new)
+        if isinstance(v, ast.Call) and norm(v.func) == "Event" and any(k.arg == "duration" and norm(k.value) == f"{ev}.duration" for k in v.keywords):
+            B.append((st, v))
+    if not A and not B:
+        return False
+    if not A or not B:
+        what = "no `<group>.duration += event.duration` for an event joining an existing group" if not A else "no group creation `Event(duration=event.duration)` stored under the key"
+        rep.violation("SUM", fi.short, "counting sites", f"{what}: the durations of a group's events are not summed exactly once each", fi.loc(ol))
+        return True
+    g = cfg_of(fi)
+    head = g.node_of(ol)  # the `for` node
+    body_entry = [v for v, lab in g.succ[head] if lab and lab[0] == "for" and lab[2] is True]
+    site_nodes = {g.node_of(a) for a in A} | {g.node_of(v) for _, v in B}
+    # at least once
+    miss = any(head in g.reach_avoiding([b], avoid=frozenset(site_nodes), include_start=True) for b in body_entry if b not in site_nodes)
+    rep.check(not miss, "SUM", fi.short, "every event is counted", "each iteration passes through `+= event.duration` or `Event(duration=event.duration)`", "an iteration of the event loop can complete without adding the event's duration to a group or creating a group with it: total duration is not conserved", fi.loc(ol))
+    # at most once
+    twice = None
+    for sn in site_nodes:
+        r = g.reach_avoiding([sn], avoid=frozenset({head}))
+        hit = [x for x in site_nodes if x in r]
+        if hit:
+            twice = (sn, hit[0])
+    rep.check(twice is None, "SUM", fi.short, "no event is counted twice", "at most one counting site per iteration", (f"one iteration can pass through two counting sites (lines {g.nodes[twice[0]].line} and {g.nodes[twice[1]].line}): the event's duration is added twice" if twice else ""), fi.loc(ol))
+
+    def exists_edge(lab, want):
+        m = membership(lab, ck, groups)
+        if m is not None:
+            return m is want
+        for gv in gvars:
+            t = truth(lab, gv)
+            if t is not None:
+                return t is want
+        return False
+
+    for a in A:
+        r = set()
+        for b in body_entry:
+            r |= g.reach_filtered(b, lambda u, v, lab: not exists_edge(lab, True)) | {b}
+        rep.check(g.node_of(a) not in r, "SUM", fi.short, f"accumulation `{norm(a)[:50]}`", "only where the group is known to exist", "the accumulation can run for a key whose group does not exist yet (KeyError / AttributeError), or the existence test does not guard it", fi.loc(a))
+    for st, v in B:
+        r = set()
+        for b in body_entry:
+            r |= g.reach_filtered(b, lambda u, v_, lab: not exists_edge(lab, False)) | {b}
+        rep.check(g.node_of(st) not in r, "SUM", fi.short, f"group creation `{norm(st)[:50]}`", "only where the group is known not to exist", "a new group is stored for a key that may already have one: the durations accumulated so far are thrown away", fi.loc(st))
+    others = [n for n in ast.walk(ol) if isinstance(n, (ast.Assign, ast.AugAssign)) and n not in A and any(isinstance(t, ast.Attribute) and t.attr == "duration" and norm(t.value) in grp for t in (n.targets if isinstance(n, ast.Assign) else [n.target]))]
+    rep.check(not others, "SUM", fi.short, "nothing else writes a group's duration", "", f"`{norm(others[0])[:60] if others else ''}` also writes a group's duration", fi.loc(others[0]) if others else fi.loc(ol))
+    skips = [n for n in ast.walk(ol) if isinstance(n, (ast.Continue, ast.Break, ast.Return))]
+    rep.check(not skips, "SUM", fi.short, "every event is grouped", "no continue/break in the event loop", "some events are skipped by the grouping loop", fi.loc(ol))
+    _outputs(rep, fi, ol, groups)
+    return True
+
+
 def duration_conservation(prog, rep, ol):
     rep.rule("SUM", "merge_events_by_keys: every event reaches exactly one of: group creation with duration=event.duration, or group.duration += event.duration; one output event per group; chunk_events_by_key: every key-bearing event either extends the last chunk (subevents.append(event) AND duration += event.duration) or opens a chunk with subevents=[event] and duration=event.duration that is appended")
     fi = prog.func("merge_events_by_keys")
     ev = norm(ol.target)
     ifs = [n for n in ol.body if isinstance(n, ast.If) and isinstance(n.test, ast.Compare) and isinstance(n.test.ops[0], (ast.NotIn, ast.In))]
     if len(ifs) != 1:
-        rep.undecided("SUM", fi.short, "group dispatch", f"{len(ifs)} membership tests on the group dict", fi.loc(ol))
+        if not _sum_general(prog, rep, fi, ol):
+            rep.undecided("SUM", fi.short, "group dispatch", f"{len(ifs)} membership tests on the group dict", fi.loc(ol))
         return
     i = ifs[0]
     groups = norm(i.test.comparators[0])
@@ -141,6 +273,10 @@ def duration_conservation(prog, rep, ol):
     # no filter / skip in the event loop
     skips = [n for n in ast.walk(ol) if isinstance(n, (ast.Continue, ast.Break, ast.Return))]
     rep.check(not skips, "SUM", fi.short, "every event is grouped", "no continue/break in the event loop", "some events are skipped by the grouping loop", fi.loc(ol))
+    _outputs(rep, fi, ol, groups)
+
+
+def _outputs(rep, fi, ol, groups):
     # outputs: one per group
     post = [n for n in fi.node.body if n.lineno > ol.lineno]
     loops = [n for n in post if isinstance(n, ast.For) and norm(n.iter) in (groups, f"{groups}.values()", f"{groups}.items()")]
